@@ -496,7 +496,8 @@ def main(argv=None):
         log("[%s] %d cases, %d oracle failures, %d mismatches, %d direct, %d errors" % (
             pid, len(r["cases"]), len(r["oracle"]), len(r["mismatch"]), len(r["direct"]), len(r["errors"])))
         need_search = (not b["ok"]) or r["mismatch"] or r["errors"]
-        concrete = [c for c in r["oracle"] + r["direct"] if c.get("class") not in known_classes]
+        concrete = [c for c in r["oracle"] + r["direct"]
+                    if not any(x in known_classes for x in str(c.get("class", "")).split("|"))]
         if need_search and not concrete:
             # intensified search for a failing input
             k = cfg["search_factor"]
@@ -518,8 +519,11 @@ def main(argv=None):
                 keys_nt.add(hashlib.sha1(c.get("key", "").encode()).hexdigest())
         for c in r["oracle"] + r["direct"]:
             cl = c.get("class", "")
-            if cl in known_classes:
-                seen_known.setdefault(cl, c)
+            # a case may carry several input classes joined by "|": it is a known finding if any of them is
+            hit = [x for x in cl.split("|") if x in known_classes]
+            if hit:
+                for x in hit:
+                    seen_known.setdefault(x, c)
             elif cl not in seen_new or desc_len(c) < desc_len(seen_new[cl][0]):
                 seen_new[cl] = (c, r)   # keep the smallest failing case per class
         if not samples and r["cases"]:
